@@ -86,6 +86,13 @@ def run(repo, R):
     report(R, f, findings)
     if ex is not None:
         R.floor("D", nD, 3, "derivative-table stores")
+    # the property is stated for Cartesian, spherical and mixed bases and with a transformation: the assembly of this operator's base
+    # class (norm once per index, own Cartesian->spherical matrix, segment-major blocks, transformation on every index) is part of it
+    from ..report import compose as _compose
+    from . import c09 as _c09
+    _bases = ('base_two_symm',)
+    _compose(R, "C09", _c09.run, repo, keep=lambda fd: any(b_ in (fd.where or "") or b_ in fd.site for b_ in _bases) or "spherical.py" in (fd.where or ""),
+             why="results for spherical / mixed / transformed bases are assembled by " + ", ".join(_bases))
     R.assumptions += ["derivative recurrence from d/dx x^i exp(-a x^2) = i x^(i-1) - 2a x^(i+1) and integration by parts", "the overlap recurrences are decided under C01",
                       "assembly is decided under C09"]
     return ("STENCIL + AXTYPE on the kinetic-energy kernel chain: the five stores of the derivative table are compared with the derivative "
